@@ -65,7 +65,7 @@ POINTS = {
                       "raise ValueError(\"Invalid input: Values in 'x'"),
 }
 REQUIRED_POINTS = list(POINTS)
-REQUIRED_CLAUSES = ["passes-through-points", "value==exact-interpolant",
+REQUIRED_CLAUSES = ["independent-of-other-instances", "passes-through-points", "value==exact-interpolant",
                     "derivative==exact", "forms-and-order-agree",
                     "refuse.outside-table", "refuse.duplicate-abscissa",
                     "root.found-inside-limits", "root.residual",
@@ -258,6 +258,7 @@ def case_table(mon, xs, ys, kind, qseed):
     qs = [rng.uniform(sx[0], sx[-1]) for _ in range(6)]
     qs += [(a + b) / 2.0 for a, b in zip(sx, sx[1:])][:4]
     qs += [math.nextafter(sx[0], sx[-1]), math.nextafter(sx[-1], sx[0])]
+    first = _answers(itp, qs)
     forms = build_forms(xs, ys, rng)
     objs = {}
     for name, fn in forms.items():
@@ -349,6 +350,30 @@ def case_table(mon, xs, ys, kind, qseed):
         mon.cls("form:y-only", ("yonly",) + ident)
     except Exception as ex:
         mon.dev("forms-and-order-agree", {"y_only": ys, "raised": repr(ex)})
+    # the first object, after all the others above were built and used (and
+    # one more, differently loaded, is alive), still answers as it did
+    other = I([1.0, 2.5, 4.0, 7.0], [3.0, -8.0, 21.0, 2.0])
+    _answers(other, [2.0, 5.5])
+    again = _answers(itp, qs)
+    mon.check("independent-of-other-instances", again == first,
+              lambda: dict(case, at=qs, alone=repr(first)[:300],
+                           with_other_instances=repr(again)[:300]))
+
+
+def _answers(itp, qs):
+    out = []
+    for q in qs:
+        for f in (itp, itp.derivative):
+            try:
+                out.append(num(f(q)))
+            except Exception as ex:
+                out.append(type(ex).__name__)
+    for f in (itp.root, itp.minmax):
+        try:
+            out.append(num(f()))
+        except Exception as ex:
+            out.append(type(ex).__name__)
+    return out
 
 
 def eff_limits(xl, xh, sx):
